@@ -50,6 +50,14 @@ def build():
         alts=dict(f=[C((4, 5), 2)], out=[lambda s: np.zeros((5, 6), dtype=complex), lambda s: np.full((5, 6), 1j)],
                   offset=[K((-1, 0)), K((-2, 0))]),
         writes=['out'], norefill=['out'])
+    add('dft2-square', ['C01'], lentil.fourier.dft2,
+        lambda s: dict(f=C((8, 9), 8)(s), alpha=(1 / 8, 1 / 9), shape=(8, 9)),
+        alts=dict(f=[C((8, 9), 9)], alpha=[K((0.1, 0.1))], shape=[K((9, 8))], unitary=[K(False)]))
+    add('idft2-square', ['C01'], lentil.fourier.idft2,
+        lambda s: dict(F=C((8, 9), 8)(s), alpha=(1 / 8, 1 / 9), shape=(8, 9)), alts=dict(F=[C((8, 9), 9)], unitary=[K(False)]))
+    add('dft2-wide-out', ['C01'], lentil.fourier.dft2,
+        lambda s: dict(f=C((3, 300), 10)(s), alpha=(0.2, 1 / 300), shape=(4, 5), out=np.full((4, 5), 2 - 1j)),
+        alts=dict(f=[C((3, 300), 11), C((300, 3), 12)], out=[lambda s: np.zeros((4, 5), dtype=complex)]), writes=['out'], norefill=['out'])
     add('idft2', ['C01'], lentil.fourier.idft2,
         lambda s: dict(F=C((4, 5), 4)(s), alpha=(0.25, 0.2), unitary=True),
         alts=dict(F=[C((4, 5), 5)], alpha=[K((0.2, 0.2)), K(0.25)], unitary=[K(False)], shift=[K((1.0, 0.0)), K((2.0, 0.0))]),
@@ -199,6 +207,19 @@ def build():
         bad=[('ptype', K(lentil.tilt)), ('ptype', K(lentil.transform)), ('ptype', K('bogus')), ('ptype', K(7))], writes=['w'], norefill=['w'])
     add('dft2-out-overlap', ['C01'], lambda f, alpha, how: _dft2_overlap(lentil, f, alpha, how), lambda s: dict(f=C((12, 12), 6)(s), alpha=(1 / 12, 1 / 12), how='view'),
         alts=dict(f=[C((9, 12), 7)], alpha=[K((0.1, 0.05))], how=[K('same'), K('block'), K('fresh')]), invariant=lambda r: r[1], writes=['f'], norefill=['f'])
+    disp = lambda trace, dispersion: (lambda s: lentil.DispersiveTilt(trace=list(trace), dispersion=list(dispersion)))
+    add('dispersive.shift', ['C04'], lambda t, wavelength, xs, ys: t.shift(wavelength=wavelength, xs=xs, ys=ys),
+        lambda s: dict(t=disp([4000.0, 0.3, 0.0], [2.0 ** -10, WL - 2.0 ** -10 * 2e-5])(s), wavelength=WL, xs=0.0, ys=0.0),
+        alts=dict(t=[disp([2000.0, 0.1, 0.0], [2.0 ** -10, WL - 2.0 ** -10 * 2e-5]), disp([-0.25, 0.0], [0.5, 2.0 ** -10, WL - (0.5 * (1e-5) ** 2 + 2.0 ** -10 * 1e-5)]),
+                     disp([-0.25, 0.0], [0.25, 2.0 ** -10, WL - (0.25 * (1e-5) ** 2 + 2.0 ** -10 * 1e-5)]), disp([0.5, 1e-6], [2.0 ** -10, WL - 2.0 ** -10 * 3e-5]),
+                     lambda s: lentil.Grism(trace=[4000.0, 0.3, 0.0], dispersion=[2.0 ** -10, WL - 2.0 ** -10 * 2e-5])],
+                  wavelength=[K(WL * 1.01), K(WL * 0.99)], xs=[K(1e-5)], ys=[K(-2e-5)]))
+    add('tilt.shift', ['C04'], lambda t, xs, ys, z: t.shift(xs=xs, ys=ys, z=z), lambda s: dict(t=lentil.Tilt(x=1e-6, y=-2e-6), xs=0.0, ys=0.0, z=1.0),
+        alts=dict(t=[lambda s: lentil.Tilt(x=3e-6, y=0.0)], xs=[K(1e-5)], ys=[K(2e-5)], z=[K(2.0)]))
+    add('wavefront.attribute-then-fft', ['C09'], lambda w, z, du: _set_then(lentil, w, z, du), lambda s: dict(w=wf(76)(s), z=None, du=DU),
+        alts=dict(w=[wf(77)], z=[K(2.0), K(0.5)], du=[K(DU / 2)]), writes=['w'], norefill=['w'], invariant=lambda r: r[1])
+    add('plane.maskonly-mul-rescale-mul', ['C07', 'C17'], lambda shape, scale: _maskonly(lentil, shape, scale), lambda s: dict(shape=(10, 8), scale=2),
+        alts=dict(shape=[K((9, 9))], scale=[K(1.5), K(0.5)]), invariant=lambda r: r[1])
     add('plane.fit_tilt', ['C04', 'C03'], lambda p: p.fit_tilt(), lambda s: dict(p=pupil(80)(s)),
         alts=dict(p=[pupil(81), pupil(82, seg=True), pupil(83, fit=True), pupil(84, seg=True, fit=True)]))
     add('plane.fit_tilt-inplace-twice', ['C04', 'C03'], lambda p: (p.fit_tilt(inplace=True), p.fit_tilt(inplace=True), p)[2], lambda s: dict(p=pupil(82, seg=True)(s)),
@@ -462,3 +483,30 @@ def _refused_then(obj, query, how):
     if raised and not same:
         msg = f'after the refused edit {how!r} ({raised}) the same query answers differently'
     return q1, raised, msg
+
+
+def _set_then(lentil, w, z, du):
+    """propagate, change the focal length through the attribute, propagate again: the second result is computed for the focal
+    length the wavefront has now (its reported wavelength is the one of the FFT grid that scratch_shape advertises for it)"""
+    lentil.propagate_fft(w, du, shape=(4, 4), oversample=2)
+    if z is not None:
+        w.focal_length = z
+    out = lentil.propagate_fft(w, du, shape=(4, 4), oversample=2)
+    N = np.asarray(lentil.scratch_shape(w.wavelength, DX, du, w.focal_length, 2), dtype=float)
+    want = float(np.min(N * DX * du / (w.focal_length * 2)))
+    ok = abs(out.wavelength - want) <= 1e-12 * want
+    return out, (None if ok else f'after w.focal_length = {z} the FFT propagation reports wavelength {out.wavelength!r}; the grid for that focal length gives {want!r}')
+
+
+def _maskonly(lentil, shape, scale):
+    """a plane defined by its mask alone (amplitude 1, OPD 0), used, rescaled, used again: the second product is the rescaled plane's"""
+    m = lentil.circle(shape, min(shape) / 2 - 1, antialias=False)
+    p = lentil.Pupil(mask=m, pixelscale=DX, focal_length=Z)
+    w1 = lentil.Wavefront(WL) * p
+    q = p.rescale(scale)
+    w2 = lentil.Wavefront(WL) * q
+    fresh = lentil.Pupil(mask=m, pixelscale=DX, focal_length=Z).rescale(scale)
+    w3 = lentil.Wavefront(WL) * fresh
+    from .histories import dig
+    bad = dig(w2) != dig(w3) or tuple(np.asarray(w2.field).shape) != tuple(np.asarray(q.mask).shape[-2:])
+    return (w1, w2), ('a mask-only plane that was used before it was rescaled gives a different (or differently sized) field than one rescaled first' if bad else None)
